@@ -196,11 +196,15 @@ class Gen:
             return C("HFRateLimitBad")
         if k < 0.5:
             style = r.random()
-            if style < 0.15:
-                return C("HFTypedStruct", None) if r.random() < 0.5 else C("HFTypedStruct", None, "value-without-key")
-            if style < 0.25:
+            # "foreign-inner": the TypedStruct of ANOTHER http filter (lua, wasm: what an EnvoyFilter patch inserts), usually
+            # without a token bucket, often ahead of the rate limit filter
+            if style < 0.3:
+                flags = [f for f in ("value-without-key", "foreign-inner") if r.random() < 0.5]
+                return C("HFTypedStruct", None, *flags)
+            if style < 0.4:
                 return C("HFTypedStruct", Some(C("TBNotStruct")))
-            return C("HFTypedStruct", Some(C("TBStruct", self.opt(self.tsval, 0.15), self.opt(self.tsval, 0.15))))
+            flags = ["foreign-inner"] if r.random() < 0.2 else []
+            return C("HFTypedStruct", Some(C("TBStruct", self.opt(self.tsval, 0.15), self.opt(self.tsval, 0.15))), *flags)
         if k < 0.5 + self.bad * 0.15:
             return C("HFTypedStructBad")
         if k < 0.85:
